@@ -95,6 +95,7 @@ func cmdHarness(args []string) int {
 	syscall.Getrusage(syscall.RUSAGE_SELF, &ru)
 	syscall.Getrusage(syscall.RUSAGE_CHILDREN, &rc)
 	fmt.Printf("rusage self user=%.1fs sys=%.1fs children user=%.1fs sys=%.1fs\n", float64(ru.Utime.Sec)+float64(ru.Utime.Usec)/1e6, float64(ru.Stime.Sec)+float64(ru.Stime.Usec)/1e6, float64(rc.Utime.Sec)+float64(rc.Utime.Usec)/1e6, float64(rc.Stime.Sec)+float64(rc.Stime.Usec)/1e6)
+	fmt.Printf("byte-domain decisions=%d rechecked by z3=%d forks=%d\n", ex.domDecided.Load(), ex.domRechecked.Load(), ex.domForks.Load())
 	printMap("ends", ex.Ends)
 	printMap("cuts", ex.Cuts)
 	printMap("engine-errors", ex.EngineErrs)
